@@ -45,6 +45,8 @@ def run(repo: Repo, tier: str, res: CheckResult, seed: int = 0) -> None:
     silent_loss(repo, m, res)
     member_truthiness(repo, m, res)
     seen_before_refusals(repo, m, res)
+    mapped_names_not_tested_for_truth(repo, m, res)
+    flag_dumper_emits_names_of_the_cases_only(repo, m, res)
     res.assumptions = list(ASSUMPTIONS)
 
 
@@ -1044,3 +1046,73 @@ def seen_before_refusals(repo: Repo, m: ModuleInfo, res: CheckResult) -> None:
                                         "member for every alias (`RED = 1; CRIMSON = 1`), so the member collides with ITSELF and no "
                                         "loader or dumper can be created for any Enum / Flag class that has an alias", cond.lineno))
     res.count("TOTAL.loops-over-cases", n, 2)
+
+
+def mapped_names_not_tested_for_truth(repo: Repo, m: ModuleInfo, res: CheckResult) -> None:
+    """The outside names of members are USER values (`map={'A': ''}` renames A to the empty string). Selecting between the
+    sources of a name with `or`, or treating a looked-up name as absent with `if not name`, drops the falsy ones: the member is
+    represented by its raw / styled name, the configured representation is refused by the loader."""
+    n = 0
+    for ci in m.classes.values():
+        if not ci.name.endswith("MappingGenerator"):
+            continue
+        for mname, fn in ci.methods.items():
+            n += 1
+            res.evaluated(f"name-truth:{ci.name}.{mname}", True)
+
+            def user_lookup(e: ast.AST) -> bool:
+                return any((isinstance(x, ast.Subscript) or (isinstance(x, ast.Call) and isinstance(x.func, ast.Attribute) and x.func.attr == "get"))
+                           and "_map" in norm(x.value if isinstance(x, ast.Subscript) else x.func.value) for x in ast.walk(e))
+            looked = {norm(a.targets[0]) for a in ast.walk(fn) if isinstance(a, ast.Assign) and len(a.targets) == 1
+                      and isinstance(a.targets[0], ast.Name) and user_lookup(a.value)}
+            bad = []
+            for x in ast.walk(fn):
+                if isinstance(x, ast.BoolOp) and isinstance(x.op, ast.Or) and any(user_lookup(v) for v in x.values[:-1]):
+                    bad.append(x)
+                if isinstance(x, (ast.If, ast.IfExp, ast.While)):
+                    t = x.test.operand if isinstance(x.test, ast.UnaryOp) and isinstance(x.test.op, ast.Not) else x.test
+                    if isinstance(t, ast.Name) and t.id in looked:
+                        bad.append(x.test)
+            for b in bad:
+                res.add(Finding("C18", "MAP.name-tested-for-truth", m.rel, f"{ci.name}.{mname}", norm(b)[:100],
+                                f"`{norm(b)[:80]}` decides by the TRUTH of a name taken from the user's map: a member renamed to the empty "
+                                "string counts as not renamed -- it is dumped under its raw / styled name, and the configured '' is "
+                                "not accepted by the loader (an entry that IS in the map must win whatever its value)", b.lineno))
+    res.count("MAP.generator-methods", n, 3)
+
+
+def flag_dumper_emits_names_of_the_cases_only(repo: Repo, m: ModuleInfo, res: CheckResult) -> None:
+    """flag_by_member_names: the loader accepts exactly the names of `_get_cases(enum)` under the mapping generated for them. The
+    dumper's closure may therefore emit only elements of THAT mapping (`mapping[case]` for a case of the loop): a name obtained
+    from another call of the generator (for the zero member, for compound members under allow_compound=False) is one the
+    loader of the same configuration refuses."""
+    ci = m.classes.get("FlagByListProvider")
+    fn = ci.methods.get("_make_dumper") if ci is not None else None
+    if fn is None:
+        raise AnalysisError("anchor vanished: FlagByListProvider._make_dumper")
+    closures = [d for d in fn.body if isinstance(d, ast.FunctionDef)]
+    if len(closures) != 1:
+        raise AnalysisError("FlagByListProvider._make_dumper: expected one closure")
+    cl = closures[0]
+    # the mapping of the cases: assigned from generate_for_dumping(<cases>)
+    maps = {norm(a.targets[0]): a.value for a in fn.body if isinstance(a, ast.Assign) and len(a.targets) == 1
+            and "generate_for_dumping" in norm(a.value)}
+    res.evaluated("flag-dumper:names-from-the-case-mapping", True)
+    other_gen = [a for a in ast.walk(fn) if isinstance(a, ast.Call) and "generate_for_dumping" in norm(a.func)]
+    if len(other_gen) > 1:
+        extra = other_gen[1]
+        res.add(Finding("C18", "FLAG.dumper-names-outside-cases", m.rel, "FlagByListProvider._make_dumper", norm(extra)[:100],
+                        f"`{norm(extra)[:80]}`: the dumper consults the mapping generator a second time, for members that need not be among "
+                        "the cases the loader knows (`_get_cases` drops the zero member and, without allow_compound, the compound "
+                        "ones): a name emitted from there is refused by the loader of the same configuration", extra.lineno))
+    free_lists = set()
+    for r in [x for x in walk_no_nested(cl) if isinstance(x, ast.Return) and x.value is not None]:
+        for nm in ast.walk(r.value):
+            if isinstance(nm, ast.Name) and nm.id not in {a.arg for a in cl.args.args} and nm.id not in maps \
+                    and not any(isinstance(a, ast.Assign) and any(isinstance(t, ast.Name) and t.id == nm.id for t in a.targets) for a in ast.walk(cl)) \
+                    and nm.id not in ("list", "reversed", "tuple", "need_to_reverse"):
+                free_lists.add(nm.id)
+    for nm in sorted(free_lists):
+        res.add(Finding("C18", "FLAG.dumper-names-outside-cases", m.rel, f"FlagByListProvider._make_dumper.{cl.name}", nm,
+                        f"the dumper returns `{nm}`, prepared outside the closure and not an element of the mapping of the cases: whether "
+                        "the loader of the same configuration knows these names is not established", cl.lineno))
